@@ -15,6 +15,11 @@ proxy's table) this module
                                       every notification it is sent holds the topic's modes of its
                                       user after every request, while it stays attached to the topic
                                       or to 'me'
+      sharer-tracks-subscribers       a sharer's session attached to the topic that read the subscriber
+                                      list from {meta sub} and applies every notification about other
+                                      users it is sent holds the topic's modes of every other subscriber
+      offline-set-sub-not-notified    (known finding) a {set sub} from a session that is not attached changes
+                                      the stored want without any notification to the user's tracking sessions
       proxy-tracks-topic              the proxy's perUser table (real proxyMasterResponse /
                                       updateAcsFromPresMsg) equals the master's after every request
   * compares with the extracted model Sys/AcsNotify.v (runner c05x): notify_params on the modes
@@ -138,6 +143,8 @@ class Gen:
         self.att.add(s)
         if self.rng.random() < 0.75:
             self.op("getdesc", s)
+        if self.rng.random() < 0.3:
+            self.op("getsub", s)
 
     def skeleton(self):
         rng = self.rng
@@ -456,6 +463,9 @@ def analyse(sc, blocks, alg, stats=None):
     fol = {}                 # sid -> (want, given) | None
     blocked = set()          # sessions whose tracker could not be evaluated in this pass
     tainted = set()          # users whose stored want was changed behind the loaded topic (offline {set})
+    tabs = {}                # sid -> {user: (want, given)} | None: a sharer's view of the other subscribers
+    blocked2 = set()
+    per = {}
     st = stats if stats is not None else {}
 
     def bump(k, n=1):
@@ -604,6 +614,14 @@ def analyse(sc, blocks, alg, stats=None):
                                     # hub.replyOfflineTopicSetSub: the store was written behind the loaded topic, nobody is notified
                                     tainted.add(us)
                                     bump("offline_set")
+                                    left = [x for x in sorted(set(att) | set(me)) if x != sid and sc.sessions.get(x) == us and fol.get(x) is not None
+                                            and not any(y == x and acs_frame(tt) for y, tt in b["all"])]
+                                    if left:
+                                        fails.append(("offline-set-sub-not-notified", k,
+                                                      "request %d (%s %s) from session %d, which is not attached to the topic, changed the stored want of user %d (reply %s) "
+                                                      "but sessions %s of the same user, which track their permissions (attached to the topic or to 'me'), were sent no notification; "
+                                                      "the loaded topic still holds %s" %
+                                                      (k + 1, kind, args, sid, us, t, left, "/".join(mstr2(x) for x in auth.get(us, (UNSET, UNSET))))))
                                 else:
                                     a, g = d["acs"].split("/", 1)
                                     fol[sid] = (alg.full(a), alg.full(g))
@@ -652,6 +670,71 @@ def analyse(sc, blocks, alg, stats=None):
                                   "holds %s/%s; the topic holds %s/%s; frames it received for this request: %s" %
                                   (k + 1, kind, args, sid, us, where, mstr2(cur[0]), mstr2(cur[1]), mstr2(want[0]), mstr2(want[1]), per.get(sid, []))))
                     fol[sid] = None
+        # ---- sharers (A, S or O) attached to the topic tracking the other subscribers' modes
+        if not direct:
+            if kind == "restart":
+                tabs.clear()
+                blocked2.clear()
+            for sid, lst in per.items():
+                if sid in blocked2:
+                    continue
+                try:
+                    for t in lst:
+                        if t.startswith("sub ") and sid == req and kind == "getsub" and sid in prev_att and sid in att:
+                            rows, full_view = {}, True
+                            for row in t.split()[1:]:
+                                f = row.split(":")
+                                if f[1] == "-/-":
+                                    full_view = False
+                                    break
+                                a, g = f[1].split("/", 1)
+                                rows[int(f[0])] = (alg.full(a), alg.full(g))
+                            if full_view:
+                                tabs[sid] = rows
+                                bump("table_snapshots")
+                        elif t.startswith("ctrl 200") and sid == req and kind == "delsub" and sid in prev_att:
+                            if tabs.get(sid) is not None:
+                                tabs[sid][args[1]] = (0, 0)        # the requester of an eviction knows
+                        elif t.startswith("ctrl 200 ") and sid == req and kind == "setsub" and sid in prev_att:
+                            d = kvs(t)
+                            if "acs" in d and "user" in d and tabs.get(sid) is not None:
+                                a, g = d["acs"].split("/", 1)
+                                tabs[sid][int(d["user"])] = (alg.full(a), alg.full(g))
+                        else:
+                            f = acs_frame(t)
+                            if f and f[0].startswith("u") and f[3] and tabs.get(sid) is not None:
+                                v = int(f[0][1:])
+                                cw, cg = tabs[sid].get(v, (0, 0))
+                                if cw is None or cg is None:
+                                    continue
+                                rw, okw = alg.mutate(cw, f[3][0])
+                                rg, okg = alg.mutate(cg, f[3][1])
+                                if okw and okg:
+                                    tabs[sid][v] = (rw, rg)
+                                bump("table_updates")
+                except Need:
+                    blocked2.add(sid)
+            for sid in list(tabs):
+                m = auth.get(sc.sessions.get(sid))
+                if sid not in att or m is None or not (norm(m[0]) & norm(m[1]) & 176):
+                    tabs[sid] = None          # detached, or no longer entitled to the other users' notifications
+            for sid, tab in sorted(tabs.items()):
+                if tab is None or sid in blocked2:
+                    continue
+                us = sc.sessions.get(sid)
+                bump("table_checks")
+                for u in sorted(set(tab) | set(auth)):
+                    if u == us or u in tainted or None in tab.get(u, (0, 0)):
+                        continue
+                    have = normp(tab.get(u, (0, 0)))
+                    want = normp(auth.get(u, (UNSET, UNSET)))
+                    if have != want:
+                        fails.append(("sharer-tracks-subscribers", k,
+                                      "after request %d (%s %s) session %d of user %d (a sharer attached to the topic), which read the subscribers' modes from {meta sub} and applied every "
+                                      "notification it was sent, holds %s/%s for user %d; the topic holds %s/%s; frames it received for this request: %s" %
+                                      (k + 1, kind, args, sid, us, mstr2(have[0]), mstr2(have[1]), u, mstr2(want[0]), mstr2(want[1]), per.get(sid, []))))
+                        tabs[sid] = None
+                        break
         prev_loaded, prev_auth, prev_att = loaded, auth, att
     return fails, corr
 
@@ -780,13 +863,14 @@ def run_layer2(ctx):
     for sc, k in hangs[:1]:
         fails.append((sc, "hang", k, impl[sc.id][k]["hang"]))
     seen = {}
+    known = set(f["key"] for f in ctx.load_findings() if f["property"] == ctx.pid)
     for sc, law, k, detail in fails:
         seen.setdefault(law, []).append((sc, k, detail))
     for law, lst in seen.items():
         sc, k, detail = min(lst, key=lambda x: (x[1], len(x[0].ops)))
         small = sc.clone(sc.ops[:k + 1])
         small.sessions = sc.sessions
-        if not ctx.replay:
+        if not ctx.replay and law not in known:
             def still_bad(c, law=law):
                 c.sessions = sc.sessions
                 rc2, im2, _ = run_impl(ctx, [c], tag="shrink")
@@ -834,7 +918,7 @@ def run_layer2(ctx):
         for f, v in fields.items():
             if mf.get(f) != v:
                 mism.append((sc, runner, case, "%s=%s" % (f, v), "%s=%s" % (f, mf.get(f)), where))
-    if mism and not fails:
+    if mism and not any(law not in known for _, law, _, _ in fails):
         sc, runner, case, iv, mv, where = mism[0]
         rep = {"correspondence": "projection %s of C05 layer 2" % case.split()[0], "case": case, "impl": iv, "model": mv, "where": where,
                "more": [{"case": m[2], "impl": m[3], "model": m[4], "where": m[5]} for m in mism[1:10]], "layer": 2}
@@ -855,6 +939,8 @@ def run_layer2(ctx):
         "permission_changes_observed": stats.get("changes", 0), "acs_notifications_checked": stats.get("acs_frames", 0),
         "session_tracker_checks": stats.get("tracker_checks", 0), "session_tracker_updates": stats.get("tracker_updates", 0),
         "session_snapshots": stats.get("snapshots", 0), "proxy_table_checks": stats.get("proxy_checks", 0),
+        "sharer_table_checks": stats.get("table_checks", 0), "sharer_table_updates": stats.get("table_updates", 0),
+        "sharer_table_snapshots": stats.get("table_snapshots", 0),
         "offline_set_requests_excluded": stats.get("offline_set", 0),
         "model_correspondence_items": len(items) + len(by_runner["c05"]), "correspondence_mismatches": len(mism),
         "monitor_failures": len(fails), "impl_wall_s": round(t_impl, 1),
